@@ -61,7 +61,7 @@ Definition C03_full_statement : Prop :=
    Editing s rebuilds c1 only (cut-off); editing c1's script output forwards to t. *)
 Example C03_example :
   let mk deps st p cat := {| s_deps := deps; s_ifcreate := []; s_always := false; s_stamp := st;
-                             s_out := ODollar3; s_payload := p; s_cat := cat; s_exit := 0%Z |} in
+                             s_out := ODollar3; s_payload := p; s_cat := cat; s_exit := 0%Z; s_tol := false |} in
   let s := [115] in let c1 := [99;49] in let c2 := [99;50] in let t := [116] in
   let h := [SWrite s [1]; SWriteDo (c1 ++ b_do) (mk [s] true 10 false);
             SWriteDo (c2 ++ b_do) (mk [c1] true 11 true); SWriteDo (t ++ b_do) (mk [c2] false 20 true);
